@@ -626,6 +626,12 @@ error:
 	} else if (error == TR_INTR) {
 		RTR_DBG1("receive call interrupted");
 		return TR_INTR;
+	} else if (error == TR_CLOSED) {
+		// Tell the caller that the peer hung up: rtr_sync downgrades the
+		// protocol version if that happens before a session exists.
+		RTR_DBG1("connection closed by the cache");
+		rtr_change_socket_state(rtr_socket, RTR_ERROR_FATAL);
+		return TR_CLOSED;
 	} else if (error == CORRUPT_DATA) {
 		RTR_DBG1("corrupt PDU received");
 		const char txt[] = "corrupt data received, length value in PDU is too small";
